@@ -146,6 +146,8 @@ class C04(Prop):
     def coq_case(self, case, obs):
         fp = jv.from_plain
         k = case['kind']
+        if k in ('decode', 'detect') and cc.has_noncanonical_float(case['msg']):
+            return None
         if k == 'decode':
             return f"CDecode {cc.PROTO_TERM[case['proto']]} {c_bytes(bytes(case['msg']))} {cc.dres_term(obs)}"
         if k == 'detect':
